@@ -342,20 +342,21 @@ RANDOM_COMBOS = {
     "mixed":     (C(2, 3, 2, fb=True, uc=1, ums=2, rr=True), "mixed"),
     "defaults":  (C(0, 0, 0), "mixed"),
     "minmax":    (C(3, 2, 1), "load"),
+    "min-only":  (C(3, 0, 0), "load"),        # only minSize given: maxSize and the watermark take their defaults afterwards
     # maxSize 4294967295 and watermark 3000000000 (see vCfg.Big in the harness; the ghost sees the stand-in 1000000)
     "big":       (dict(C(1, 1000000, 1000000), big=True), "load"),
 }
 PROP_COMBOS = {
     "C01": ["aff", "aff-ref", "aff-fb", "aff-wide", "mixed"],
-    "C02": ["load", "load-ref", "load-grow", "aff-ref", "mixed"],
-    "C03": ["load-grow", "faults-min", "minmax", "aff", "mixed"],
+    "C02": ["load", "load-ref", "load-grow", "aff-ref", "rr-ref", "mixed"],
+    "C03": ["load-grow", "faults-min", "minmax", "min-only", "aff", "mixed"],
     "C04": ["mixed", "faults", "ref", "load-ref"],
     "C05": ["faults", "faults-min", "mixed", "rr-ref"],
     "C06": ["faults-min", "faults", "rr", "mixed"],
     "C07": ["ref", "aff-ref", "load-ref", "ref-fb", "rr-ref"],
     "C08": ["aff-fb", "ref-fb", "faults", "mixed"],
     "C09": ["rr", "rr-ref", "mixed"],
-    "C17": ["defaults", "big", "mixed"],
+    "C17": ["defaults", "big", "min-only", "mixed"],
     "C20": ["ref", "faults", "mixed", "aff-ref"],
 }
 
